@@ -16,7 +16,7 @@ import (
 
 // treesFor yields the trees of a run: the replayed one, or a small exhaustive
 // family followed by seeded random trees.
-func treesFor(c *Ctx, withFindings bool, f func(t []*Ins)) {
+func treesFor(c *Ctx, f func(t []*Ins)) {
 	if in := c.ReplayInput(); in != nil {
 		if h, ok := in["tree"].(string); ok {
 			b, err := hex.DecodeString(h)
@@ -36,15 +36,12 @@ func treesFor(c *Ctx, withFindings bool, f func(t []*Ins)) {
 	for i := 0; i < c.N; i++ {
 		if i%4 == 3 {
 			// Stop, Fatal, panic and recover inside functions called back by native code
-			f(genCallbackTree(c.Rng, withFindings && i%8 == 7))
+			// in half of them the panics may leave the callbacks
+			f(genCallbackTree(c.Rng, i%8 == 7))
 			continue
 		}
-		f(genTree(c.Rng, withFindings))
+		f(genTree(c.Rng))
 	}
-}
-
-func hasCallback(t []*Ins) bool {
-	return treeHas(t, func(in *Ins) bool { return in.Tok == tCallback })
 }
 
 func hasDeferredNativePanic(t []*Ins) bool {
@@ -227,11 +224,19 @@ func knownFindingReproducers(c *Ctx) {
 			c.Fail("runtime-fault-no-position", map[string]string{"fault": f.name, "source": src, "path": pe.Path(), "position": pe.Position().String(), "want_line": "4"})
 		}
 	}
-	// a panic that leaves a function called back by native code: Go unwinds through the native frame, the caller recovers it
+	// regression (fix 34a254c, former finding callback-panic-is-fatal): a panic that leaves a function called
+	// back by native code: Go unwinds through the native frame, the caller recovers it; two VMs deep, the
+	// panics of the callback (a recovered one included) reach Run before the panic of the caller
 	tc := []*Ins{{Tok: tDeferFn, Body: []*Ins{{Tok: tRecover}}}, {Tok: tCallback, Body: []*Ins{{Tok: tPanic, N: 7}}}}
 	c.Count("evaluations")
 	if res := runProgramTree(programSource(tc)); !bytes.Equal(res.noLines, []byte{2, 1, 7, 10}) {
-		c.Fail("callback-panic-is-fatal", map[string]string{"tree": hx(encTree(tc, false)), "source": programSource(tc), "got": hx(res.noLines), "want": "0201070a", "host_panic": res.hostMsg})
+		c.Fail("callback-panic-not-recoverable", map[string]string{"tree": hx(encTree(tc, false)), "source": programSource(tc), "got": hx(res.noLines), "want": "0201070a", "host_panic": res.hostMsg})
+	}
+	tc = []*Ins{{Tok: tDeferFn, Body: []*Ins{{Tok: tCallback, Body: []*Ins{{Tok: tCallback, Body: []*Ins{
+		{Tok: tDeferFn, Body: []*Ins{{Tok: tRecover}, {Tok: tPanic, N: 4}}}, {Tok: tPanic, N: 3}}}}}}}, {Tok: tPanic, N: 1}}
+	c.Count("evaluations")
+	if res := runProgramTree(programSource(tc)); !bytes.Equal(res.noLines, []byte{2, 1, 3, 11, 3, 4, 0, 0, 0, 3, 1, 0, 0, 1, 0, 0, 0}) {
+		c.Fail("callback-panic-not-recoverable", map[string]string{"tree": hx(encTree(tc, false)), "source": programSource(tc), "got": hx(res.noLines), "want": "0201030b03040000000301000001000000", "host_panic": res.hostMsg})
 	}
 	// regression (fix 7a741c2, former finding recovered-panic-stays-in-chain): a panic recovered by
 	// a deferred call leaves the chain although the function has another deferred call, which panics
@@ -266,7 +271,7 @@ func knownFindingReproducers(c *Ctx) {
 func registerFrames() {
 	// correspondence: the real VM against the Coq model FramesM (frames_case)
 	Register("C12-cases", func(c *Ctx) {
-		treesFor(c, true, func(t []*Ins) {
+		treesFor(c, func(t []*Ins) {
 			src := programSource(t)
 			res := runProgramTree(src)
 			if res.buildErr != "" {
@@ -293,7 +298,7 @@ func registerFrames() {
 	Register("C12-sweep", func(c *Ctx) {
 		knownFindingReproducers(c)
 		var trees [][]*Ins
-		treesFor(c, false, func(t []*Ins) {
+		treesFor(c, func(t []*Ins) {
 			trees = append(trees, t)
 		})
 		type flav struct {
@@ -433,15 +438,9 @@ func classify(t []*Ins, equalsModel bool) string {
 }
 
 // classifyM: as classify; modelAns is the answer of the model of today's
-// machine (ok:<hex of trace and outcome>). A panic that left a function
-// called back by native code (outcome 16 of the model) is the known finding
-// callback-panic-is-fatal, again only when the VM does what the model does.
+// machine (ok:<hex of trace and outcome>). No deviation from Go is a known
+// finding any more.
 func classifyM(t []*Ins, equalsModel bool, modelAns string) string {
-	if equalsModel && hasCallback(t) && strings.HasPrefix(modelAns, "ok:") {
-		if b, err := hex.DecodeString(modelAns[3:]); err == nil && outcomeCode(b) == 16 {
-			return "callback-panic-is-fatal"
-		}
-	}
 	return classify(t, equalsModel)
 }
 
